@@ -266,7 +266,10 @@ def run_real_case(ci, oi, ki, form):
         for step in range(2):
             cur_mod = utils.parse_into_datetime(json.loads(_ser(cur))["modified"])
             versioning.get_timestamp = lambda m=cur_mod: utils.STIXdatetime(m + dt.timedelta(microseconds=OFFSETS[oi]))
-            cur = versioning.new_version(cur) if step == 0 else versioning.revoke(cur)
+            if form == 0 and OFFSETS[oi] % 2 == 0:
+                cur = cur.new_version() if step == 0 else cur.revoke()          # the methods versionable objects carry
+            else:
+                cur = versioning.new_version(cur) if step == 0 else versioning.revoke(cur)
             texts.append(json.loads(_ser(cur))["modified"])
     finally:
         versioning.get_timestamp = saved
